@@ -20,6 +20,8 @@ class Part:
     tz_replay: bool = False         # counterexamples are replayed under TZ derived from env offsets
     exclude: List[str] = field(default_factory=list)  # extra preconditions from known findings
     concrete_only: bool = False     # finite obligations: only the authored input is run (on the real code)
+    amplify: bool = False           # work-budget harnesses: a counterexample that only just exceeds the
+                                    # symbolic budget is re-run with its 4-octet fields inflated
 
     def source(self) -> str:
         sig = ', '.join('%s: %s' % (n, t) for n, t in self.params)
